@@ -15,7 +15,52 @@ import (
 	"time"
 )
 
+// realClean: in field-congruence mode only pure arithmetic assumptions are kept (arrays and
+// quantified range facts are irrelevant there and are not well-sorted over the reals).
+func realClean(pc []*Term) []*Term {
+	var out []*Term
+	for _, p := range pc {
+		bad := false
+		seen := map[*Term]bool{}
+		var walk func(t *Term)
+		walk = func(t *Term) {
+			if seen[t] || bad {
+				return
+			}
+			seen[t] = true
+			switch t.Op {
+			case "select", "store", "forall", "exists", "constarr", "div", "mod", "bv2nat", "int2bv":
+				bad = true
+				return
+			}
+			if t.S.K == KArr || t.S.K == KBV {
+				bad = true
+				return
+			}
+			for _, a := range t.Args {
+				walk(a)
+			}
+		}
+		walk(p)
+		if !bad {
+			out = append(out, p)
+		}
+	}
+	return out
+}
+
 func (o *Obl) smt(extraGet []string) string {
+	if o.Real {
+		c := *o
+		c.Real = false
+		c.PC = realClean(o.PC)
+		c.realPrint = true
+		return c.smtInner(extraGet)
+	}
+	return o.smtInner(extraGet)
+}
+
+func (o *Obl) smtInner(extraGet []string) string {
 	var sb strings.Builder
 	sb.WriteString("(set-option :produce-models true)\n(set-logic ALL)\n")
 	sy := newSymbols()
@@ -50,9 +95,10 @@ func (o *Obl) smt(extraGet []string) string {
 	for _, n := range o.DefNames {
 		defined[n] = true
 	}
-	sb.WriteString(sy.decls(defined))
+	sb.WriteString(sy.declsMode(defined, o.realPrint))
 	sb.WriteString(o.Defs)
 	sh := newSharer()
+	sh.real = o.realPrint
 	seen := map[*Term]bool{}
 	for _, p := range o.PC {
 		sh.collectBound(p, seen)
